@@ -367,6 +367,24 @@ impl FullMappingsEncoder {
   }
 }
 
+
+// ---------- lines-only writer, expressed through the full writer's spec ----------
+pub struct LS { pub lw: u32, pub line: u32, pub si: u32, pub ol: u32 }
+pub open spec fn ls0() -> LS { LS { lw: 0, line: 1, si: 0, ol: 1 } }
+pub open spec fn ls_inv(ls: LS) -> bool { (ls.lw == 0 || ls.lw == ls.line) && 1 <= ls.line < lim() && ls.si < lim() && ls.ol < lim() }
+pub open spec fn l_of(m: Mapping) -> Mapping {
+  Mapping { generated_line: m.generated_line, generated_column: 0,
+    original: Some(OriginalLocation { source_index: m.original->0.source_index, original_line: m.original->0.original_line, original_column: 0, name_index: None }) }
+}
+pub open spec fn es_of(ls: LS) -> ES { ES { line: ls.line, col: 0, ol: ls.ol, oc: 0, si: ls.si, ni: 0, am: ls.lw != 0, an: false, init: ls.lw == 0 } }
+pub open spec fn lines_skip(ls: LS, m: Mapping) -> bool { m.original is None || ls.lw == m.generated_line }
+pub open spec fn lines_bytes(ls: LS, m: Mapping) -> Seq<u8> { if lines_skip(ls, m) { Seq::<u8>::empty() } else { enc_bytes(es_of(ls), l_of(m)) } }
+pub open spec fn lines_state(ls: LS, m: Mapping) -> LS {
+  if lines_skip(ls, m) { ls } else { LS { lw: m.generated_line, line: m.generated_line, si: m.original->0.source_index, ol: m.original->0.original_line } }
+}
+pub proof fn lemma_fld_plus1(x: u32) requires x < lim() ensures fld((x + 1) as u32, x) == seq![67u8]
+{ assert(zz(x as int + 1, x as int) == 2); reveal_with_fuel(vlq_digits, 2); assert(vlq_digits(2) =~= seq![67u8]); }
+
 pub(crate) struct LinesOnlyMappingsEncoder {
   last_written_line: u32,
   current_line: u32,
@@ -376,7 +394,11 @@ pub(crate) struct LinesOnlyMappingsEncoder {
 }
 
 impl LinesOnlyMappingsEncoder {
-  pub fn new() -> Self {
+  pub closed spec fn ls(&self) -> LS { LS { lw: self.last_written_line, line: self.current_line, si: self.current_source_index, ol: self.current_original_line } }
+  pub closed spec fn bytes(&self) -> Seq<u8> { self.mappings@ }
+  pub fn new() -> (r: Self)
+    ensures r.ls() == ls0(), r.bytes() == Seq::<u8>::empty()
+  {
     Self {
       last_written_line: 0,
       current_line: 1,
@@ -388,27 +410,50 @@ impl LinesOnlyMappingsEncoder {
 }
 
 impl LinesOnlyMappingsEncoder {
-  fn encode(&mut self, mapping: &Mapping) {
+  fn encode(&mut self, mapping: &Mapping)
+    requires ls_inv(old(self).ls()), m_in_dom(*mapping), old(self).ls().line <= mapping.generated_line, all_wire(old(self).bytes())
+    ensures final(self).ls() == lines_state(old(self).ls(), *mapping),
+      final(self).bytes() == old(self).bytes() + lines_bytes(old(self).ls(), *mapping),
+      ls_inv(final(self).ls()), all_wire(final(self).bytes())
+  {
+    let ghost l0 = self.ls();
+    let ghost b0 = self.bytes();
+    let ghost m = *mapping;
+    proof { assert(b0 + Seq::<u8>::empty() =~= b0); }
     if let Some(original) = &mapping.original {
       if self.last_written_line == mapping.generated_line {
         // avoid writing multiple original mappings per line
         return;
       }
+      let ghost e0 = es_of(l0);
+      let ghost lm = l_of(m);
+      proof {
+        assert(!dropped(e0, lm));
+        lemma_enc_bytes_wire(e0, lm); lemma_wire_concat(b0, enc_bytes(e0, lm));
+        lemma_fld_same(0u32); lemma_fld_same(original.source_index); lemma_fld_plus1(self.current_original_line);
+      }
       self.last_written_line = mapping.generated_line;
 
       let line_delta = mapping.generated_line - self.current_line;
       if line_delta > 0 {
-        for _i in 0..line_delta as usize { self.mappings.push(b';'); }
+        for _i in 0..line_delta as usize
+          invariant self.ls() == (LS { lw: m.generated_line, ..l0 }), self.bytes() == b0 + semis(_i as nat), line_delta == m.generated_line - l0.line,
+        { self.mappings.push(b';');
+          proof { assert(b0 + semis(_i as nat) + seq![59u8] =~= b0 + semis((_i + 1) as nat)); } }
       }
+      proof { assert(self.bytes() =~= b0 + sep_bytes(e0, lm)); }
+      let ghost b1 = b0 + sep_bytes(e0, lm);
 
       self.current_line = mapping.generated_line;
 
       if original.source_index == self.current_source_index {
         if original.original_line == self.current_original_line + 1 {
           self.current_original_line = original.original_line;
-          self.mappings.extend_from_slice(b"AACA");
+          self.mappings.push(b'A'); self.mappings.push(b'A'); self.mappings.push(b'C'); self.mappings.push(b'A');
+          proof { assert(self.bytes() =~= b1 + seq![65u8] + seq![65u8] + seq![67u8] + seq![65u8]);
+                  assert(self.bytes() =~= b0 + enc_bytes(e0, lm)); }
         } else {
-          self.mappings.extend_from_slice(b"AA");
+          self.mappings.push(b'A'); self.mappings.push(b'A');
           encode_vlq(
             &mut self.mappings,
             original.original_line,
@@ -416,9 +461,11 @@ impl LinesOnlyMappingsEncoder {
           );
           self.current_original_line = original.original_line;
           self.mappings.push(b'A');
+          proof { assert(self.bytes() =~= b1 + seq![65u8] + seq![65u8] + fld(original.original_line, l0.ol) + seq![65u8]);
+                  assert(self.bytes() =~= b0 + enc_bytes(e0, lm)); }
         }
       } else {
-        self.mappings.extend_from_slice(b"A");
+        self.mappings.push(b'A');
         encode_vlq(
           &mut self.mappings,
           original.source_index,
@@ -432,11 +479,15 @@ impl LinesOnlyMappingsEncoder {
         );
         self.current_original_line = original.original_line;
         self.mappings.push(b'A');
+        proof { assert(self.bytes() =~= b1 + seq![65u8] + fld(original.source_index, l0.si) + fld(original.original_line, l0.ol) + seq![65u8]);
+                assert(self.bytes() =~= b0 + enc_bytes(e0, lm)); }
       }
     }
   }
 
-  fn drain(&mut self) -> String {
+  fn drain(&mut self) -> (r: String)
+    requires all_wire(old(self).bytes())
+  {
     unsafe {
       // SAFETY: The `mappings` field in the source map consists solely of ASCII characters.
       String::from_utf8_unchecked(std::mem::take(&mut self.mappings))
